@@ -278,103 +278,109 @@ class Mismatch(Exception):
 
 
 def eval_container_cmp(P, fname, is_map):
-    """Evaluate an element-wise container comparison on abstract sequences: own elements A1..Ap, the other's B1..Bq
-    (p, q in 0..2), every outcome of the element comparisons from {-5, 0, 7} (cmp need not return -1/0/1), with exact C
+    """Evaluate an element-wise container comparison: the own container is a small concrete instance (absmodel: 0..2 elements, the
+    type's accessors and cursor functions evaluated from their source), the other one an abstract sequence B1..Bq (q in 0..2) reached
+    through iter_init/iter_next/get; every outcome of the element comparisons from {-5, 0, 7} (cmp need not return -1/0/1), exact C
     semantics for the conditions (cint).  The result must be the lexicographic three-way comparison, as -1/0/1.
     Returns (number of scenarios, first mismatch or None, unsupported reason or None)."""
-    from . import cint
+    from . import cint, absmodel
     import itertools
     fn = P.fn(fname)
-    TERM = 0
+    T = fname.split('_')[0]
+    TERM = absmodel.TERM
+    SELF = absmodel.SELF
+    OBJ = ('ep', 'obj', 0)
     n_eval = 0
-    for p, q, same_type, has_cmp in [(a_, b_, st_, hc_) for a_ in range(3) for b_ in range(3) for st_ in (False, True) for hc_ in (1, 0)]:
-        if True:
-            m = min(p, q)
-            results = [(-5, 0, 7)] * (m * (2 if is_map else 1))
-            for combo in itertools.product(*results) if results else [()]:
-                kc = combo[:m]
-                vc = combo[m:] if is_map else ()
-                # expected
-                exp = None
-                for i in range(m):
-                    if kc[i] != 0:
-                        exp = -1 if kc[i] < 0 else 1
-                        break
-                    if is_map and vc[i] != 0:
-                        exp = -1 if vc[i] < 0 else 1
-                        break
-                if exp is None:
-                    exp = 0 if p == q else (-1 if p < q else 1)
+    own_scen = {0: [], 1: [], 2: []}
+    for sc in absmodel.scenarios(T):
+        M0 = absmodel.build(P, T, sc)
+        if M0.n in own_scen and (T not in ('Tree',) or sc[1] == 0) and len(own_scen[M0.n]) < 2:
+            own_scen[M0.n].append(sc)
+    for p in range(3):
+        for sc in own_scen[p]:
+            for q, same_type, has_cmp in [(b_, st_, hc_) for b_ in range(3) for st_ in (False, True) for hc_ in (1, 0)]:
+                m = min(p, q)
+                results = [(-5, 0, 7)] * (m * (2 if is_map else 1))
+                for combo in itertools.product(*results) if results else [()]:
+                    kc = combo[:m]
+                    vc = combo[m:] if is_map else ()
+                    exp = None
+                    for i in range(m):
+                        if kc[i] != 0:
+                            exp = -1 if kc[i] < 0 else 1
+                            break
+                        if is_map and vc[i] != 0:
+                            exp = -1 if vc[i] < 0 else 1
+                            break
+                    if exp is None:
+                        exp = 0 if p == q else (-1 if p < q else 1)
+                    M = absmodel.build(P, T, sc)
+                    A, AV = M.elems, M.vals
 
-                def A(i):
-                    return 100 + i if 1 <= i <= p else TERM
+                    def Bt(j):
+                        return 200000 + j if 1 <= j <= q else TERM
+                    OWN = 8000 + ('Array', 'List', 'Tuple', 'Tree', 'Table').index(T)
 
-                def Bt(j):
-                    return 200 + j if 1 <= j <= q else TERM
-
-                def call(nm, e, it, kc=kc, vc=vc, p=p, q=q, same_type=same_type, has_cmp=has_cmp):
-                    if nm in ('memcmp', 'strcmp', 'strncmp'):
-                        raise Mismatch('compares raw storage with %s (padding bytes and stored pointers are not part of the value)' % nm)
-                    if nm in ('type_implements', 'implements'):
-                        return has_cmp
-                    if nm == 'type_of':
-                        a0 = ir.top_nocast(it.N.canon(e[2][0]))
-                        return OWN if (a0 == ('param', 0) or same_type) else 8999
-                    args = [it.ev(a) for a in e[2]]
-                    first = ir.top_nocast(it.N.canon(e[2][0])) if e[2] else None
-                    if nm == 'len' and first == ('param', 1):
-                        return q
-                    if (nm == 'len' or nm.endswith('_Len')) and first == ('param', 0):
-                        return p
-                    if nm == 'iter_init' and first == ('param', 1):
-                        return Bt(1)
-                    if nm == 'iter_next' and first == ('param', 1):
-                        return Bt(args[1] - 200 + 1) if args[1] > 200 else TERM
-                    if nm.endswith('_Iter_Init') and first == ('param', 0):
-                        return A(1)
-                    if nm.endswith('_Iter_Next') and first == ('param', 0):
-                        return A(args[1] - 100 + 1) if 100 < args[1] < 200 else TERM
-                    if nm in ('Table_Get', 'Tree_Get') and first == ('param', 0) and 100 < args[1] < 200:
-                        return 300 + (args[1] - 100)
-                    if nm == 'get' and first == ('param', 1) and 200 < args[1] < 300:
-                        return 400 + (args[1] - 200)
-                    if nm == 'cmp':
-                        x, y = args
-                        for (lo, hi, tab) in ((100, 200, kc), (300, 400, vc)):
-                            if lo < x < lo + 100 and hi < y < hi + 100:
-                                i, j = x - lo, y - hi
-                                if i == j and i - 1 < len(tab):
-                                    return tab[i - 1]
-                                raise cint.NoEval('elements at different positions are compared')
-                            if hi < x < hi + 100 and lo < y < lo + 100:
-                                i, j = y - lo, x - hi
-                                if i == j and i - 1 < len(tab):
-                                    return -tab[i - 1]
-                                raise cint.NoEval('elements at different positions are compared')
-                        raise Mismatch('cmp is applied to something that is not an element of self and the element of obj at the same position '
-                                       '(a value address computed with the wrong offset, for instance)')
-                    raise cint.NoEval('call %s' % nm)
-                atoms = {('global', 'Terminal'): TERM, ('param', 0): 1, ('param', 1): 2, ('arrow', ('param', 0), 'nitems'): p,
-                         ('arrow', ('param', 1), 'nitems'): q, ('arrow', ('param', 0), 'ksize'): 8, ('arrow', ('param', 0), 'vsize'): 16,
-                         ('arrow', ('param', 0), 'tsize'): 8, ('arrow', ('param', 0), 'type'): 8500, ('arrow', ('param', 1), 'type'): 8500,
-                         ('arrow', ('param', 0), 'data'): 600000, ('arrow', ('param', 1), 'data'): 700000}
-                for gi, gname in enumerate(('Array', 'List', 'Tuple', 'Tree', 'Table')):
-                    atoms[('global', gname)] = 8000 + gi
-                OWN = atoms[('global', fname.split('_')[0])]
-                for i in range(0, p + 2):
-                    atoms[('idx', ('arrow', ('param', 0), 'items'), ('int', i))] = A(i + 1)
-                it = cint.CInt(P, fn, atoms=atoms, call=call, N=util.Norm(P, fn, expand_locals=True, inline=False))
-                try:
-                    r = it.run([1, 2])
-                except Mismatch as mm:
-                    return n_eval, 'own sequence of %d, other of %d%s: %s' % (p, q, ' (a container of the same type)' if same_type else '', mm), None
-                n_eval += 1
-                if r[0] == 'stuck':
-                    return n_eval, None, '%s at %s' % (r[1], P.cfg(fn).describe(r[2]))
-                got = r[1] if r[0] == 'ret' else r[0]
-                if got != exp:
-                    return n_eval, ('own sequence of %d, other of %d, element comparisons %s%s: returns %s, the lexicographic order gives %s' % (
-                        p, q, list(kc), (' / values %s' % list(vc)) if is_map else '', got, exp)), None
+                    def call(nm, e, it, kc=kc, vc=vc, p=p, q=q, same_type=same_type, has_cmp=has_cmp, A=A, AV=AV, M=M):
+                        if nm in ('memcmp', 'strcmp', 'strncmp'):
+                            raise Mismatch('compares raw storage with %s (padding bytes and stored pointers are not part of the value)' % nm)
+                        if nm in ('type_implements', 'implements'):
+                            return has_cmp
+                        if nm == 'type_of':
+                            a0 = it.ev(e[2][0])
+                            return OWN if (a0 == SELF or same_type) else 8999
+                        if nm == 'cast':
+                            return it.ev(e[2][0])
+                        args = [it.ev(a) for a in e[2]]
+                        first = args[0] if args else None
+                        if nm == 'len' and first == OBJ:
+                            return q
+                        if nm == 'len' and first == SELF:
+                            return p
+                        if nm == 'iter_init' and first == OBJ:
+                            return Bt(1)
+                        if nm == 'iter_next' and first == OBJ:
+                            return Bt(args[1] - 200000 + 1) if isinstance(args[1], int) and args[1] > 200000 else TERM
+                        if nm in ('Table_Get', 'Tree_Get', 'get') and first == SELF:
+                            if args[1] in A:
+                                return AV[A.index(args[1])]
+                            raise Mismatch('looks up something that is not one of its own keys')
+                        if nm == 'get' and first == OBJ and isinstance(args[1], int) and 200000 < args[1] < 300000:
+                            return 400000 + (args[1] - 200000)
+                        if nm == 'cmp':
+                            x, y = args
+                            for own, oth, tab in ((A, 200000, kc), (AV, 400000, vc)):
+                                if x in own and isinstance(y, int) and oth < y < oth + 100:
+                                    i, j = own.index(x) + 1, y - oth
+                                    if i == j and i - 1 < len(tab):
+                                        return tab[i - 1]
+                                    raise cint.NoEval('elements at different positions are compared')
+                                if y in own and isinstance(x, int) and oth < x < oth + 100:
+                                    i, j = own.index(y) + 1, x - oth
+                                    if i == j and i - 1 < len(tab):
+                                        return -tab[i - 1]
+                                    raise cint.NoEval('elements at different positions are compared')
+                            raise Mismatch('cmp is applied to something that is not an element of self and the element of obj at the same position '
+                                           '(a value address computed with the wrong offset, for instance)')
+                        raise cint.NoEval('call %s' % nm)
+                    atoms = M.atoms
+                    atoms[('elem', 'obj', 0, 'nitems')] = q          # the other container's plain fields, should the code read them (same type)
+                    for f_, v_ in (('type', 8500), ('ktype', 8500), ('vtype', 8501), ('tsize', 8), ('ksize', 8), ('vsize', 16), ('data', 700000), ('nslots', q + 2)):
+                        atoms[('elem', 'obj', 0, f_)] = v_
+                    for gi, gname in enumerate(('Array', 'List', 'Tuple', 'Tree', 'Table')):
+                        atoms[('global', gname)] = 8000 + gi
+                    it = cint.CInt(P, fn, atoms=atoms, call=call, recurse=True, mem=M.mem, N=util.Norm(P, fn, expand_locals=False, inline=False), max_steps=4000)
+                    try:
+                        r = it.run([SELF, OBJ])
+                    except (Mismatch, absmodel.Mismatch) as mm:
+                        return n_eval, 'own sequence of %d, other of %d%s: %s' % (p, q, ' (a container of the same type)' if same_type else '', mm), None
+                    n_eval += 1
+                    if r[0] == 'stuck':
+                        return n_eval, None, '%s at %s' % (r[1], P.cfg(fn).describe(r[2]))
+                    got = r[1] if r[0] == 'ret' else r[0]
+                    if got != exp:
+                        return n_eval, ('own sequence of %d (%s), other of %d, element comparisons %s%s: returns %s, the lexicographic order gives %s' % (
+                            p, M.label, q, list(kc), (' / values %s' % list(vc)) if is_map else '', got, exp)), None
     return n_eval, None, None
 
 
